@@ -911,16 +911,26 @@ fn c08_skip(tag: &str, data: &[u8], exp: &Expected, full: &Game) -> Outcome {
 	if exp.n_end == 0 {
 		return Holds; // nothing to skip to
 	}
-	match read_with(data, Some(&opts(true, false))) {
-		Ok(Ok(g)) => {
-			if g.start.bytes.0 != exp.start || g.end.as_ref().map(|e| &e.bytes.0) != exp.end.as_ref() || g.metadata != full.metadata {
-				return viol(format!("[{} skip_frames] start / end / metadata differ from the bytes written (end {:?}, file has {:?})", tag, g.end.as_ref().map(|e| &e.bytes.0), exp.end));
-			}
-			Holds
+	// a Cursor, and seekable readers that return short reads (the jump to Game End may not depend on how the stream fragments)
+	for chunk in [None, Some(1usize), Some(300)] {
+		let o = opts(true, false);
+		let r = guard(|| match chunk {
+			None => peppi::io::slippi::read(Cursor::new(data), Some(&o)),
+			Some(c) => peppi::io::slippi::read(Chunked { data, pos: 0, chunk: c }, Some(&o)),
 		}
-		Ok(Err(e)) => viol(format!("[{} skip_frames] rejected: {}", tag, e)),
-		Err(p) => Panicked(format!("read: {}", p)),
+		.map_err(|e| e.to_string()));
+		let how = chunk.map_or(String::new(), |c| format!(", {}-byte reads", c));
+		match r {
+			Ok(Ok(g)) => {
+				if g.start.bytes.0 != exp.start || g.end.as_ref().map(|e| &e.bytes.0) != exp.end.as_ref() || g.metadata != full.metadata {
+					return viol(format!("[{} skip_frames{}] start / end / metadata differ from the bytes written (end {:?}, file has {:?})", tag, how, g.end.as_ref().map(|e| &e.bytes.0), exp.end));
+				}
+			}
+			Ok(Err(e)) => return viol(format!("[{} skip_frames{}] rejected: {}", tag, how, e)),
+			Err(p) => return Panicked(format!("read: {}", p)),
+		}
 	}
+	Holds
 }
 
 pub fn c08(spec: &Spec, _p: &Progress) -> Outcome {
